@@ -2,12 +2,17 @@ package main
 
 // Wire format of a case (shared by `gen`, `drive` and the Lean monitor m_pipeline):
 //
-//	graph <caseid> seed=<u64> hold=<0|1>
+//	graph <caseid> seed=<u64> hold=<0|1> [steer=<k>:<s|S|f|F>,…]
 //	task <id> <role> d=<depth> x=<ctx> w=<ids|-> b=<cmds|->
 //	try <k> owner=<p>:<i> body=<b> succ=<id|-> fail=<id|-> fin=<id|->
 //	top <ids|->
 //	<seq> <event>            (drive output only)
 //	end
+//
+// steer= is the steering policy of the gate controller, per try block k (drive.go, steerCtl):
+// s / S hold the first command of the selected (fail / success) handler until the finally handler
+// has started / has closed; f / F hold the first command of the finally handler until the selected
+// handler has started / has closed.
 
 import (
 	"bufio"
@@ -92,9 +97,43 @@ type Case struct {
 	ID    string
 	Seed  uint64
 	Hold  bool
-	Tasks []*Task // index = task id
-	Tries []*Try  // index = try number
+	Steer map[int]byte // try number -> 's', 'S', 'f', 'F' (absent = not steered)
+	Tasks []*Task      // index = task id
+	Tries []*Try       // index = try number
 	Top   []int
+}
+
+// steerString renders the steer= field ("" when the case is not steered).
+func (c *Case) steerString() string {
+	if len(c.Steer) == 0 {
+		return ""
+	}
+	parts := []string{}
+	for k := range c.Tries {
+		if m, ok := c.Steer[k]; ok {
+			parts = append(parts, fmt.Sprintf("%d:%c", k, m))
+		}
+	}
+	return strings.Join(parts, ",")
+}
+
+func parseSteer(v string) (map[int]byte, error) {
+	if v == "-" || v == "" {
+		return nil, nil
+	}
+	out := map[int]byte{}
+	for _, f := range strings.Split(v, ",") {
+		km := strings.Split(f, ":")
+		if len(km) != 2 || len(km[1]) != 1 || !strings.Contains("sSfF", km[1]) {
+			return nil, fmt.Errorf("bad steer entry %q", f)
+		}
+		k, err := strconv.Atoi(km[0])
+		if err != nil || k < 0 {
+			return nil, fmt.Errorf("bad steer entry %q", f)
+		}
+		out[k] = km[1][0]
+	}
+	return out, nil
 }
 
 func joinInts(xs []int) string {
@@ -121,7 +160,11 @@ func (c *Case) writeHeader(w io.Writer) {
 	if c.Hold {
 		hold = 1
 	}
-	fmt.Fprintf(w, "graph %s seed=%d hold=%d\n", c.ID, c.Seed, hold)
+	if st := c.steerString(); st != "" {
+		fmt.Fprintf(w, "graph %s seed=%d hold=%d steer=%s\n", c.ID, c.Seed, hold, st)
+	} else {
+		fmt.Fprintf(w, "graph %s seed=%d hold=%d\n", c.ID, c.Seed, hold)
+	}
 	for _, t := range c.Tasks {
 		cmds := make([]string, len(t.Body))
 		for i, cmd := range t.Body {
@@ -253,7 +296,7 @@ func readCase(sc *bufio.Scanner) (*Case, error) {
 		var err error
 		switch {
 		case f[0] == "graph":
-			if c != nil || len(f) != 4 {
+			if c != nil || (len(f) != 4 && len(f) != 5) {
 				return nil, fmt.Errorf("bad graph line %q", line)
 			}
 			c = &Case{ID: f[1]}
@@ -262,6 +305,12 @@ func readCase(sc *bufio.Scanner) (*Case, error) {
 				if c.Seed, err = strconv.ParseUint(s, 10, 64); err == nil {
 					if h, err = field(f[3], "hold"); err == nil {
 						c.Hold = h == "1"
+						if len(f) == 5 {
+							var st string
+							if st, err = field(f[4], "steer"); err == nil {
+								c.Steer, err = parseSteer(st)
+							}
+						}
 					}
 				}
 			}
@@ -394,6 +443,11 @@ func (c *Case) check() error {
 			if cmd.Kind == 'y' && (cmd.Arg < 0 || cmd.Arg >= len(c.Tries)) {
 				return fmt.Errorf("case %s: task %d runs unknown try %d", c.ID, t.ID, cmd.Arg)
 			}
+		}
+	}
+	for k := range c.Steer {
+		if k >= len(c.Tries) {
+			return fmt.Errorf("case %s: steer names unknown try %d", c.ID, k)
 		}
 	}
 	for _, y := range c.Tries {
